@@ -80,6 +80,11 @@ CHECKS["C17"] = ("recon", "exploration",
     "Real RemoteClient writers (sequential and parallel), get_one_term, singleflight and DiskCache (none / large / one-item capacity) reconstruct seeded plans (1-40 terms, repeated xorbs, fetch ranges exact / widened / whole-xorb / windows with decoys, first-term offset, byte ranges starting and ending mid-term) in 2-3 passes (cold then warm, both writers) while term fetches complete in seeded order; output bytes, returned length and written length are compared with the slice of the concatenated term data, and passes with each other. NUM_CONCURRENT_RANGE_GETS is sampled per worker process.",
     "Trusted: tokio, the harness's plan generator (it plays the server). reqwest / the retry middleware are not run. Each fetch info has its own URL.", "§7 C17")
 
+CHECKS["C19"] = ("crash", "fault_enumeration",
+    "crash-point enumeration: directory snapshots at every named point between file-system effects (process-crash model) re-opened by fresh instances, plus a protocol check over the kernel's inotify event sequence",
+    "For seeded histories, the operation under test (shard flush, consolidation, keyed export, LocalClient::put, DiskCache::put with eviction) runs once while every crash point (H4/H7) copies the directories; every snapshot and variants with leftover temp files cut to a prefix are re-opened: final-named files complete and consistent with their names (content hash / length+CRC / validator), records retrievable before the operation still retrievable (losses the completed operation itself causes, i.e. evictions, excepted), re-open neither fails nor panics nor serves temp files. Independently of where the points sit, the inotify event sequence must show final names appearing only by rename and never written afterwards. Complete over crash points per history; histories sampled.",
+    "Trusted: tmpfs semantics, inotify. Crash states are taken between library-level file-system effects, not at individual write(2) calls (no syscall interposition available); temp-file prefix variants cover the states in between.", "§7 C19")
+
 NOT_APPLICABLE = {
     "C06": "Every clause is a pure function of its input (hash identities, text-form round trips, avalanche); there is no schedule, clock, fault or history for a simulator to control, so deterministic simulation does not apply (DESIGN §7 C06). The independent hash implementations are exercised as oracles of C02/C03/C08.",
 }
